@@ -108,6 +108,20 @@ func runNilCaps(t []string) (reply string) {
 	return "bad-op"
 }
 
+// govreq <hex db path>: the requirements govulncheck/binary states once the command line has configured it with that database path
+// -> net=<0 any|1 offline|2 online>
+func runGovReq(t []string) string {
+	if len(t) != 2 {
+		return "bad-op"
+	}
+	f := &cli.Flags{Root: os.TempDir(), ResultFile: "r.textproto", GovulncheckDBPath: hx.UnHex(t[1]), DetectorsToRun: []string{"govulncheck/binary"}}
+	cfg, err := f.GetScanConfig()
+	if err != nil || len(cfg.Detectors) != 1 {
+		return "net=?"
+	}
+	return "net=" + string(rune('0'+int(cfg.Detectors[0].Requirements().Network)))
+}
+
 var cliRoot string
 
 func runCLI(t []string) string {
